@@ -3,6 +3,7 @@ import copy
 import random
 import lib
 import solver_checks as SC
+import graph_checks as GC
 
 N_GAMES = dict(quick=1500, thorough=40000)
 
@@ -20,6 +21,7 @@ def games_nonabs(rng, tier):
 
 
 CHECKERS = {
+    'graph': GC.check_graph,
     'reach': lambda inp, mods, rng: SC.check_reach_only(inp, mods),
     'solve': lambda inp, mods, rng: SC.check_solve(inp, mods),
     'repeat': lambda inp, mods, rng: SC.check_repeat(inp, mods, rng),
@@ -32,3 +34,5 @@ for p in ('C01', 'C04'):
     SUITES[p] = SUITES[p] + [dict(name='reach-phase-nonabsorbing-finals', gen=games_nonabs, checker='reach')]
 SUITES['C10'] = [dict(name='solve-small-games', gen=games, checker='solve'), dict(name='repeat-sequences', gen=games_few, checker='repeat')]
 SUITES['C13'] = [dict(name='permuted-presentations', gen=games, checker='permute')]
+
+SUITES['C07'] = [dict(name='graphs', gen=GC.gen_graphs, checker='graph')]
